@@ -122,6 +122,20 @@ def run(tier, seed, replay=None):
     chk.ev.assume("wall-clock 'shortly after' is checked with %d ms slack; the theorems are about the protocol model, the Go scheduler and timers are not modelled" % SLACK_MS)
 
     def search():
+        # start-solution construction slower than the configured duration (slow exact check, 30-45 stops)
+        slow = S.make_solve_cases(seed * 91 + 5, 3, lambda rng, m: {"iterations": 50, "duration_ms": 150, "runs": 1, "starts": 1, "det": 1,
+                                                                    "repeat": 1, "snap": 0, "cancel_ms": -1, "slow_us": 40000},
+                                  size="large", feats={"precedence": False, "capacity": False, "windows": False, "maxstops": False,
+                                                       "maxdist": False, "attrs": False, "endtime": False, "maxdur": False})
+        for c in slow:
+            c["model"]["opts"].update({"f_unplanned": 2, "f_travel": 1, "f_vehicles_duration": 1})    # planning must pay off
+            for st_ in c["model"]["stops"]:
+                st_["penalty"] = None
+        rs, _, _ = S.run_solve(slow, "c15_slow", timeout=3000)
+        cs = FW.Check(PID, tier, seed)
+        check_runs(cs, rs, slow)
+        if cs.violations:
+            return cs.violations[0]
         more = S.make_solve_cases(seed * 91 + 3, n * 4, settings)
         r2, _, _ = S.run_solve(more, "c15_search", timeout=3000)
         c2 = FW.Check(PID, tier, seed)
